@@ -199,7 +199,7 @@ class SigmaDetectionItem(ProcessingItemTrackingMixin, ParentChainMixin):
                 source=self.source,
             )
 
-        if len(self.original_value) > 1:
+        if len(self.original_value) != 1:  # multiple values or an empty value list
             value: str | int | float | bool | None | list[str | int | float | bool | None] = [
                 (
                     value.to_plain(True)
